@@ -6,6 +6,7 @@
 
 use crate::engine::{CaseInfo, CaseResult, Ctx, Failure, Property, Src, Tier};
 use crate::ensure;
+use crate::probes::agent::{Phase, Stage, Target, World, PHASES, TARGETS};
 use crate::probes::{clocksched, default_manager, streamctl, Mgr, ProbeEffectBuilder, ProbeKind};
 use kira::clock::{ClockHandle, ClockSpeed, ClockTime};
 use kira::sound::static_sound::{StaticSoundData, StaticSoundHandle, StaticSoundSettings};
@@ -697,6 +698,94 @@ fn run_case(c: &Case, ctx: &mut Ctx) -> Result<Outcome, Failure> {
 }
 
 // ------------------------------------------------------------------------------------------
+// part C: a clock and a sound scheduled on it, handed over at every moment of a callback
+
+#[derive(Debug, Clone)]
+struct HandOff {
+	sample_rate: u32,
+	ibs: usize,
+	phase: Phase,
+	target: Target,
+	other_first: bool,
+	/// ticks the clock advances per internal buffer
+	per_buffer: f64,
+	at: (u64, f64),
+}
+
+/// The gameplay thread creates a clock, starts it and plays a sound scheduled on it - all at one
+/// of the moments of a callback at which a second thread's calls can land. The sound must wait
+/// for the clock (never report Stopped while the clock's handle is alive) and begin in the
+/// callback during which the clock, as read back from its handle, reaches the time.
+fn hand_off(c: &HandOff) -> Result<(), Failure> {
+	let mut stage = Stage::new(c.sample_rate, c.ibs, c.other_first)?;
+	let tps = c.per_buffer * c.sample_rate as f64 / c.ibs as f64;
+	let (target, at, sample_rate) = (c.target, c.at, c.sample_rate);
+	let mut made: Option<(ClockHandle, StaticSoundHandle)> = None;
+	let reached = |t: ClockTime| t.ticks > at.0 || (t.ticks == at.0 && t.fraction >= at.1);
+	// reads[k] = the handle's time after callback k = the clock as of the start of callback k
+	let mut reads: Vec<ClockTime> = vec![];
+	let mut first_audible: Option<usize> = None;
+	let mut k = 0usize;
+	let mut tail = 0;
+	while k < 80 && tail < 3 {
+		let cb = if k == 0 {
+			let (r, cb) = stage.callback(c.ibs, c.phase, move |w: &mut World| -> Result<(ClockHandle, StaticSoundHandle), &'static str> {
+				let mut clock = w.mgr.add_clock(ClockSpeed::TicksPerSecond(tps)).map_err(|_| "clock limit")?;
+				clock.start();
+				let data = dc_sound(
+					StartTime::ClockTime(ClockTime {
+						clock: clock.id(),
+						ticks: at.0,
+						fraction: at.1,
+					}),
+					sample_rate,
+				);
+				let sound = match target {
+					Target::Main => w.mgr.play(data),
+					Target::AgentTrack => w.agent_track.play(data),
+					Target::OtherTrack => w.other_track.play(data),
+				}
+				.map_err(|_| "sound limit")?;
+				Ok((clock, sound))
+			})?;
+			made = Some(r.map_err(|e| Failure::simple("setup", e))?);
+			cb
+		} else {
+			stage.callback(c.ibs, Phase::Before, |_| ())?.1
+		};
+		let (clock, sound) = made.as_ref().unwrap();
+		if first_audible.is_none() && cb.out.iter().any(|x| *x != 0.0) {
+			first_audible = Some(k);
+		}
+		ensure!(
+			sound.state() != PlaybackState::Stopped,
+			"cancelled-only-when-the-clock-is-gone",
+			"a clock was created and started and a sound scheduled on it at {:?}, all {:?} of callback 0; after callback {k} the sound reports Stopped although the clock's handle is alive (clock shows {:?}); {c:?}",
+			c.at,
+			c.phase,
+			clock.time()
+		);
+		reads.push(clock.time());
+		if reached(*reads.last().unwrap()) {
+			tail += 1;
+		}
+		k += 1;
+	}
+	ensure!(tail >= 3, "setup", "the clock did not reach {:?} within 80 callbacks; {c:?}", c.at);
+	// the clock reaches the time during callback K: first K whose end (= start of K + 1) is at or past it
+	let reach = reads.iter().position(|t| reached(*t)).unwrap().saturating_sub(1);
+	let Some(s) = first_audible else {
+		return Err(Failure::new("scheduled-event-fires-in-the-right-buffer", "scheduled-event-fires-in-the-right-buffer:SoundStart:never", format!("the clock reached {:?} during callback {reach} (handle reads {:?}) but the sound scheduled on it never became audible in {k} callbacks; calls made {:?} of callback 0; {c:?}", c.at, &reads[..reads.len().min(reach + 3)], c.phase)));
+	};
+	ensure!(s >= reach, "scheduled-event-fires-in-the-right-buffer", "the sound began in callback {s}, the clock only reached {:?} during callback {reach}; {c:?}", c.at);
+	// (a sound handed over during callback 0 may arrive with callback 1)
+	if s > reach.max(1) {
+		return Err(Failure::new("scheduled-event-fires-in-the-right-buffer", "scheduled-event-fires-in-the-right-buffer:SoundStart:late", format!("the clock reached {:?} during callback {reach} but the sound began in callback {s}; calls made {:?} of callback 0; {c:?}", c.at, c.phase)));
+	}
+	Ok(())
+}
+
+// ------------------------------------------------------------------------------------------
 // part B: schedules of ClockHandle::time() against the audio thread's publication of the time
 
 const ORDERS: [[u8; 4]; 6] = [
@@ -962,7 +1051,7 @@ impl Property for C05 {
 		"C05"
 	}
 	fn rule(&self) -> &'static str {
-		"part A - each case runs up to four real clocks through the renderer (internal buffer 1..512, callbacks of arbitrary sizes, four device rates): speeds in all three units, fixed or tweened (immediate / delayed / scheduled on another clock), start / pause / stop / drop histories, and events scheduled for clock times with whole and fractional ticks: a DC sound start, a parameter tween start seen through a probe effect, and a resume_at. A clock model integrates speed x elapsed audio time per internal buffer; after every callback ClockHandle::time() / ticking() must equal the model's value as of the end of the previous callback (1e-9 relative), stop() must show zero at once, and every scheduled event must begin in exactly the internal buffer during which the model clock reaches the time while ticking (never late, never while paused or short of the time), or be cancelled (sound Stopped) when the clock is gone. Non-trivial = an event fires in an internal buffer that is not the first of its callback; distinct = distinct decoded choices. Part B (schedules) is reported under counters."
+		"part A - each case runs up to four real clocks through the renderer (internal buffer 1..512, callbacks of arbitrary sizes, four device rates): speeds in all three units, fixed or tweened (immediate / delayed / scheduled on another clock), start / pause / stop / drop histories, and events scheduled for clock times with whole and fractional ticks: a DC sound start, a parameter tween start seen through a probe effect, and a resume_at. A clock model integrates speed x elapsed audio time per internal buffer; after every callback ClockHandle::time() / ticking() must equal the model's value as of the end of the previous callback (1e-9 relative), stop() must show zero at once, and every scheduled event must begin in exactly the internal buffer during which the model clock reaches the time while ticking (never late, never while paused or short of the time), or be cancelled (sound Stopped) when the clock is gone. A third of the histories issue runs of their calls between the two halves of a callback (after Renderer::on_start_processing, before Renderer::process), where a second thread's calls can land: the model treats them as picked up by the next callback. Part C rides on every other history: a clock is created and started and a sound scheduled on it (0.2 .. 3 ticks ahead), all at one of six moments of a callback - before it, from on_start_processing of a custom sound on a sub-track (after the mixer's sub-track ring, before the main track's sound ring and the clock ring are drained) or on the main track, between the halves, or from process of such a sound - with the sound on the main track, the agent's track or another track; the sound must never report Stopped while the clock's handle is alive and must begin in the callback during which the clock, as read back from its handle, reaches the time (not earlier; not later than that callback or the one after the hand-over). Non-trivial = an event fires in an internal buffer that is not the first of its callback; distinct = distinct decoded choices. Part B (schedules) is reported under counters."
 	}
 	fn assumptions(&self) -> Vec<String> {
 		vec![
@@ -1009,6 +1098,25 @@ impl Property for C05 {
 		ctx.describe(|| format!("{case:?}"));
 		let o = run_case(&case, ctx)?;
 		let mut classes = vec![];
+		// part C rides on every other history (drawn last: older tapes keep their meaning)
+		if src.chance(1, 2) {
+			let per_buffer = src.f64_uniform(0.1, 1.5);
+			let t = src.f64_uniform(0.2, 3.0);
+			let h = HandOff {
+				sample_rate: case.sample_rate,
+				ibs: case.ibs,
+				phase: PHASES[src.index(PHASES.len())],
+				target: TARGETS[src.index(TARGETS.len())],
+				other_first: src.bool(),
+				per_buffer,
+				at: if src.bool() { (t.ceil() as u64, 0.0) } else { (t as u64, t.fract()) },
+			};
+			ctx.describe(|| format!("{case:?}; then {h:?}"));
+			hand_off(&h)?;
+			if h.phase != Phase::Before {
+				classes.push("clock-and-sound-handed-over-inside-a-callback");
+			}
+		}
 		if o.event_mid_callback {
 			classes.push("event-fires-mid-callback");
 		}
